@@ -691,7 +691,7 @@ func chainRule(c *core.Ctx) {
 							if call, ok := side.(*ssa.Call); ok {
 								if bi, ok := call.Call.Value.(*ssa.Builtin); ok && bi.Name() == "len" {
 									switch bo.Op {
-									case token.GEQ, token.GTR, token.LEQ, token.LSS:
+									case token.GEQ, token.GTR, token.LEQ, token.LSS, token.EQL, token.NEQ:
 										lenTests++
 									}
 								}
